@@ -57,6 +57,45 @@ def find_updates(fn):
         if acc is None:
             continue
         out.append(dict(acc=acc, role=role, acc_comp=acc_c, src_comp=src_c, src=src, node=iff, tgt_comp=tc, asg_src_comp=sc))
+    # the same update written with the library functions or a conditional expression:
+    #   acc = std::min(acc, src)   acc = std::max(src, acc)   acc = (src < acc) ? src : acc
+    for a in fn.walk():
+        if not is_assign(a) or a.op != '=':
+            continue
+        r = _strip_casts(a.child('rhs'))
+        while r is not None and r.k in ('MaterializeTemporaryExpr', 'ExprWithCleanups', 'CXXBindTemporaryExpr', 'ParenExpr') and r.c:
+            r = _strip_casts(r.c[0])
+        if r is None:
+            continue
+        tb, tc = _split(a.child('lhs'))
+        if tb is None:
+            continue
+        if r.k == 'CallExpr' and (r.callee or '').split('<')[0] in ('std::min', 'std::max', 'fmin', 'fmax') and len(r.args) == 2:
+            (ab, ac), (bb, bc) = _split(r.args[0]), _split(r.args[1])
+            role = 'min' if 'min' in r.callee else 'max'
+        elif r.k == 'ConditionalOperator':
+            c = _strip_casts(r.child('cond'))
+            if c is None or c.k != 'BinaryOperator' or c.op not in ('<', '>', '<=', '>='):
+                continue
+            (lb, lc), (rb, rc) = _split(c.child('lhs')), _split(c.child('rhs'))
+            (thb, thc), (elb, elc) = _split(r.child('then')), _split(r.child('else'))
+            if None in (lb, rb, thb, elb) or {(lb, lc), (rb, rc)} != {(thb, thc), (elb, elc)}:
+                continue
+            less = c.op in ('<', '<=')
+            # value chosen when the test holds is `then`: (L < R ? L : R) = min, (L < R ? R : L) = max
+            role = ('min' if less else 'max') if (thb, thc) == (lb, lc) else ('max' if less else 'min')
+            (ab, ac), (bb, bc) = (lb, lc), (rb, rc)
+        else:
+            continue
+        if None in (ab, bb):
+            continue
+        if _deref_base(tb) == _deref_base(ab) and tc == ac:
+            acc, acc_c, src, src_c = ab, ac, bb, bc
+        elif _deref_base(tb) == _deref_base(bb) and tc == bc:
+            acc, acc_c, src, src_c = bb, bc, ab, ac
+        else:
+            continue
+        out.append(dict(acc=acc, role=role, acc_comp=acc_c, src_comp=src_c, src=src, node=a, tgt_comp=tc, asg_src_comp=src_c))
     return out
 
 
